@@ -12,10 +12,10 @@ RULE = ("cases = (1) well-formed stream: descriptions with 0-6 states, 0-5 symbo
         "sections, one symbol name with several arities, word-automaton shaped descriptions; as objects (W: Serialize, parse, four "
         "encodings), as the model's canonical text (C) and as variants (V: extra blanks and tabs, parenthesised nullary rules, blank "
         "lines, ranks on states; X: section order, CR LF, missing sections, odd ranks); (2) malformed stream (M): a complete slice of all "
-        "transition lines of length <= 4 over {a ( ) , blank - >}, single-byte mutations, truncations, duplicated sections, unbalanced "
+        "transition lines of length <= 4 over {a ( ) , blank - >} and of all Ops tokens of length <= 4 over {a : 0 9 - +}, single-byte mutations, truncations, duplicated sections, unbalanced "
         "parentheses, stray colons, overflowing ranks, bytes >= 0x80, NULs, very long lines and tuples, raw bytes, keyword soup. "
         "A case is non-trivial when it is a well-formed description with >= 2 rules and a rule of arity >= 1, or a malformed-stream text of "
-        ">= 3 lines; distinct by case line")
+        ">= 3 lines that contains the Transitions keyword or is rejected; distinct by case line")
 TRUSTED_BASE = [
     "Coq 8.16.1 kernel (coqc, full .vo build); vm_compute only in Examples (C13_example_wf, C13_reserved_needed); no native_compute",
     "extraction: Require Extraction + ExtrOcamlBasic only; N, positive, Z, nat stay inductive; bytes are list N; OCaml 4.13.1",
@@ -32,6 +32,7 @@ ASSUMPTIONS = ["the process runs in the C locale (std::isspace, operator>> for i
                "correspondence is sampling: an input shape no generator produces is not covered"]
 FLAVOURS = {"quick": ["plain"], "thorough": ["plain", "asan"]}
 EXHAUSTIVE_SLICES = ("all transition lines of length <= 4 over the 7 bytes a ( ) , blank - > after a fixed header (2800 texts); "
+                     "all Ops tokens of length <= 4 (thorough: 5) over the 6 bytes a : 0 9 - + (1554 / 9330 texts); "
                      "all descriptions with one rule over symbol/state names from {a, q} and arity <= 2 with every final set (the run as a whole is not exhaustive)")
 
 RESERVED = set(b"(),:")
@@ -317,6 +318,14 @@ def exhaustive_lines():
             out.append(HEADER + bytes(w) + b"\n")
     return out
 
+def exhaustive_rank_tokens(maxlen):
+    """every token over a : 0 9 - + of length <= maxlen as the only token of the Ops line (name:rank parsing)"""
+    out = []
+    for n in range(1, maxlen + 1):
+        for w in itertools.product(b"a:09-+", repeat=n):
+            out.append(b"Ops " + bytes(w) + b"\nTransitions\n")
+    return out
+
 CORPUS_DESCS = [
     Desc(),                                                                               # everything empty
     Desc(b"A", [(b"a", 0)], [b"q"], [b"q"], [((), b"a", b"q")]),
@@ -349,6 +358,7 @@ def cases(rng, tier):
     # exhaustive slices
     for d in exhaustive_descs(): out.append((W(d), "exhaustive-desc"))
     for t in exhaustive_lines(): out.append((T("M", t), "exhaustive-lines"))
+    for t in exhaustive_rank_tokens(4 if not thorough else 5): out.append((T("M", t), "exhaustive-rank-tokens"))
     # well-formed stream
     n = 3000 if not thorough else 20000
     bases = []
@@ -372,12 +382,10 @@ def cases(rng, tier):
         st = [b"p", b"q", b"r"]
         tr = [(tuple(rng.choice(st) for _ in range(a)), s, rng.choice(st)) for s, a in (rng.choice(sy) for _ in range(rng.randint(1, 6)))]
         out.append((W(Desc(b"g", [], [], [q for q in st if rng.random() < 0.5], tr), 2 | (flags(rng) & 1)), "wf-global-alphabet"))
-    # O1 probe: explicit tree automaton with its own alphabet, with something to trim
+    # O1: explicit tree automaton with its own alphabet, with something to trim and something that must stay
+    out.append((O1_TRIGGER, "o1-result-alphabet"))
     for _ in range(20):
-        d = rand_desc(rng)
-        tr = list(d.trans) + [((), b"zz", b"unreach")]
-        d2 = Desc(d.name, d.syms, d.states, d.finals, tr)
-        out.append((T("O", serialize(d2), d2, 0), "o1-probe"))
+        out.append((o1_case(rand_desc(rng, maxar=2)), "o1-result-alphabet"))
     # malformed stream
     for t in long_texts(rng, tier): out.append((T("M", t), "long"))
     n = 9000 if not thorough else 60000
@@ -387,13 +395,25 @@ def cases(rng, tier):
         out.append((T("M", t, None, flags(rng) if rng.random() < 0.2 else 0), "mal-" + fam))
     return out
 
-CORPUS = [W(d) for d in CORPUS_DESCS] + [T("M", t) for t in CORPUS_TEXTS]
+def o1_case(d):
+    keep = b"keep"
+    tr = list(d.trans) + [((), b"zz", b"unreach"), ((), b"aa", keep)]
+    d2 = Desc(d.name, d.syms, d.states, list(d.finals) + [keep], tr)
+    return T("O", serialize(d2), d2, 0)
+O1_TRIGGER = o1_case(Desc())
+
+CORPUS = [W(d) for d in CORPUS_DESCS] + [T("M", t) for t in CORPUS_TEXTS] + [O1_TRIGGER]
 
 # ------------------------------------------------------------------------------------------------
 def nontrivial(c, impl, verd):
     k = c[0]
     if k in "WCV": return " nt" in verd
-    if k in "MX": return c.count("0a", 0, 4000) >= 2 and len(c) > 40
+    if k in "MX":
+        w = c.split(" ")
+        if len(w) < 3 or w[2] == "-": return False
+        try: t = bytes.fromhex(w[2][:4000])
+        except ValueError: return False
+        return t.count(b"\n") >= 2 and (b"Transitions" in t or " cls=rej" in verd)
     return False
 
 def observe(dist, c, impl, verd):
@@ -427,7 +447,7 @@ def shrink_candidates(c):
         if nme: out.append("W %s D %s" % (w[1], Desc(b"", syms, sts, fins, trs).fmt()))
         if w[1] != "0": out.append("W 0 D %s" % Desc(nme, syms, sts, fins, trs).fmt())
         return out
-    if w[0] in ("M", "X", "O"):
+    if w[0] in ("M", "X"):
         t = bytes.fromhex(w[2]) if w[2] != "-" else b""
         lines = t.split(b"\n")
         if len(lines) > 1:
@@ -451,10 +471,16 @@ def explain(c, impl, verd):
             "start states, one nullary rule per start state); crash / hang / nonstd = the call did not end by returning or by a std::exception. "
             "DRIFT (reported only): byte equality of the serialisations, equality of the two parsers' outcome and result.")
 
+def kf_o1_result_alphabet(c, impl, verd, k):
+    """only the O1 probe, only its own gate"""
+    return c.startswith("O ") and verd.startswith("FAIL o1_result_alphabet ")
+
 LEVEL_TEXT = ("Coq theorems (all descriptions, no bounds) about a byte-level model of TimbukSerializer::Serialize and of parse_timbuk: parsing the "
               "serialisation of any description whose names satisfy the side condition derived from the code (per role; the property's uniform "
-              "condition implies it) returns the same symbols, states, final states and rules; the integer conversion of ranks round-trips; the "
-              "comparisons used as gates decide set equality of finals and rules. Tie to the C++: libvata rebuilt from /repo's working tree "
+              "condition implies it) returns the same symbols, states, final states and rules; the integer conversion of ranks round-trips; value-level models of "
+              "load/dump with a state dictionary (explicit, BDD bottom-up, BDD top-down, finite automaton) return the final states and rules name "
+              "by name (dump_load, dump_text_load_dump, dump_load_fa), the dictionary is injective; the comparisons used as gates decide set "
+              "equality of finals and rules. Tie to the C++: libvata rebuilt from /repo's working tree "
               "serialises generated descriptions, parses its own text, the model's text and well-formed variants, and loads/dumps/re-loads "
               "through the four encodings; every result is judged by the extracted verified parser and comparisons. The malformed stream "
               "(mutations, truncations, overflowing ranks, NULs, long lines, a complete slice of short transition lines) is run through the parser and "
@@ -462,8 +488,8 @@ LEVEL_TEXT = ("Coq theorems (all descriptions, no bounds) about a byte-level mod
 LEVEL_NOTE = ("Proved: the round trip parse(serialize d) for the canonical output of the serializer (not for arbitrary white-space variants, which are "
               "tied by correspondence only) and the gate deciders. 'Never crashes / hangs / corrupts memory, rejects by a std::exception' is OBSERVED on "
               "the malformed stream (under ASan+UBSan in the thorough tier: FLAVOURS thorough = plain, asan), NOT proved: it is a run-time statement "
-              "about the C++ that no Gallina model can establish. The loaders/dumpers are tied by the verified comparison of their dumps, their "
-              "value-level model is not part of the trusted claim. Trusted: Coq kernel, ExtrOcamlBasic extraction, OCaml/C++ glue, generators. "
+              "about the C++ that no Gallina model can establish. The loaders/dumpers are modelled at value level only (dictionaries as finite maps, hash sets "
+              "as lists); they are tied to the C++ by the verified comparison of libvata's dumps with the description, not by structural comparison. Trusted: Coq kernel, ExtrOcamlBasic extraction, OCaml/C++ glue, generators. "
               "No axioms (Print Assumptions: closed under the global context).")
 TECHNIQUE = "Coq proof of a byte-level parser/serializer model + verified gate deciders; extracted-model correspondence against libvata on generated descriptions and texts"
 DESIGN_REF = "DESIGN.md 5/C13"
